@@ -30,3 +30,13 @@ func (s *Shard) VerifIndex() int { return int(s.info.ID.Bytes()[0]) }
 
 // VerifMeta returns the shard's metabase.
 func (s *Shard) VerifMeta() *meta.DB { return s.metaBase }
+
+// VerifSetExpiredCallback wires the engine's handler of expired objects.
+func (s *Shard) VerifSetExpiredCallback(cb ExpiredObjectsCallback) { s.expiredObjectsCallback = cb }
+
+// VerifGC runs one garbage collection pass (expired objects, then garbage) as
+// the GC worker would at the given epoch.
+func (s *Shard) VerifGC(epoch uint64) {
+	s.gc.currentEpoch.Store(epoch)
+	s.removeGarbage()
+}
